@@ -109,35 +109,44 @@ def check_crate(fx, rep, crate, cfg):
                               'growth of %s.%s is dominated by the below-limit edge of a len-vs-MAX_BUFFER_SIZE test whose other edge returns BufferOverflow' % (adt.split('::')[-1], bf),
                               ('the buffer of %s is grown behind a limit test that still admits len == MAX_BUFFER_SIZE (`>` instead of `>=`): the buffer grows one step beyond the limit' % adt.split('::')[-1])
                               if nonstrict else 'the buffer of %s is grown without a dominating length-vs-MAX_BUFFER_SIZE test (unbounded memory)' % adt.split('::')[-1])
-                    # R17.2 step
+                    # R17.2 step: the amount is exactly the constant step (not merely an expression that mentions it)
+                    import sym as SY
                     step_ok = False
+                    amount = None
+                    sz = crate.consts.get('connection::BUFFER_SIZE', {}).get('val')
                     for aop in t['args'][1:]:
-                        q = op_place(aop)
-                        if aop.get('k') == 'const':
-                            consts = [aop]
+                        e = SY.expr(crate, body, aop)
+                        amount = SY.show(e, 160)
+
+                        def is_step(x):
+                            return x[0] == 'cdef' and 'BUFFER_SIZE' in x[1] and 'MAX' not in x[1]
+                        if e[0] == 'call' and e[1] in ('repeat_n', 'repeat') and len(e[2]) >= 2 and is_step(e[2][-1]):
+                            step_ok = True
+                        elif e[0] == 'call' and e[1] == 'take' and len(e[2]) >= 2 and is_step(e[2][-1]):
+                            step_ok = True
+                        elif is_step(e):
+                            step_ok = True
                         else:
-                            consts = []
-                        if q:
-                            locs, events = body.slice_back([q['l']])
-                            for ev in events:
-                                if ev[0] == 'assign':
-                                    consts += [o for o in mir.rv_operands(ev[3]['rv']) if o.get('k') == 'const']
-                                    if ev[3]['rv']['k'] == 'repeat' and 'BUFFER_SIZE' in ev[3]['rv'].get('n', ''):
-                                        step_ok = True
-                                elif ev[0] == 'call':
-                                    consts += [o for o in ev[2]['args'] if o.get('k') == 'const']
-                        for c in consts:
-                            if 'BUFFER_SIZE' in (c.get('def') or '') and 'MAX' not in (c.get('def') or ''):
+                            tr = body.trace(aop)
+                            ty = (op_place(aop) or {}).get('ty') or aop.get('ty') or ''
+                            if sz is not None and ('[u8; %d]' % sz) in ty:
                                 step_ok = True
-                            if c.get('promoted') and ('BUFFER_SIZE' in c.get('ty', '') and 'MAX' not in c.get('ty', '')):
+                            if tr.get('kind') == 'const' and tr['op'].get('promoted') and sz is not None and ('[u8; %d]' % sz) in (tr['op'].get('ty') or ''):
                                 step_ok = True
-                            sz = crate.consts.get('connection::BUFFER_SIZE', {}).get('val')
-                            if c.get('promoted') and sz is not None and ('[u8; %d]' % sz) in c.get('ty', ''):
+                            if tr.get('kind') in ('rvalue',) and 'BUFFER_SIZE' in str(tr.get('rv', {}).get('n', '')):
                                 step_ok = True
+                            q = op_place(aop)
+                            if q and not step_ok:
+                                locs, events = body.slice_back([q['l']])
+                                rep_ = [ev for ev in events if ev[0] == 'assign' and ev[3]['rv']['k'] == 'repeat' and 'BUFFER_SIZE' in str(ev[3]['rv'].get('n', '')) and 'MAX' not in str(ev[3]['rv'].get('n', ''))]
+                                others = [ev for ev in events if ev[0] == 'call' and ev[2]['callee'].get('name') not in ('deref', 'as_slice', 'borrow')]
+                                if rep_ and not others:
+                                    step_ok = True
                     rep.check(step_ok, 'R17.2', key, C.where(body, b),
                               'growth amount is the constant step BUFFER_SIZE',
-                              'the buffer is grown by something other than the constant step BUFFER_SIZE',
-                              {'args': [op_str(x) for x in t['args'][1:]], 'arg_tys': [x.get('ty') for x in t['args'][1:]]})
+                              'the buffer is grown by `%s`, not by exactly the constant step BUFFER_SIZE: with another step the exact-equality "full" test can '
+                              'jump over MAX_BUFFER_SIZE (e.g. doubling goes from 64 MiB to 128 MiB)' % amount,
+                              {'amount': amount, 'arg_tys': [x.get('ty') for x in t['args'][1:]]})
     rep.floor('R17.1', 2, 'buffer growth call sites (read side, write side)')
     # R17.3 BufferOverflow only behind limit tests
     n_over = 0
